@@ -11,5 +11,3 @@ CONSTANTS
 INIT InitSim
 NEXT NextSim
 CONSTRAINT Bound
-ACTION_CONSTRAINT EmitSim
-INVARIANTS Shape Disjoint Whole VaReadsPlacement
